@@ -409,3 +409,9 @@ package car
 //@   let n, c, werr := call[traversalCar.WriteV1#0]
 //@   call[traversalCar.WriteV1#0] assert into_the_given_writer [C15]: ref(arg1) == ref(writer) && arg0.root == root && arg0.selector == selector && arg0.ls == ls && arg0.size == 0
 //@   ensures returns_bytes_written [C15]: result0 == n && err == werr
+
+//@ func GenerateIndexFromFile
+//@   let f, oerr := call[os.Open#0]
+//@   call[os.Open#0] assert the_file [C03]: arg0 == path
+//@   call[os.Open#0] assume at_origin: err == nil ==> pos(result0) == 0 && sbase(result0) == 0
+//@   call[GenerateIndex#0] assert over_that_file_with_the_options [C03]: ref(arg0) == ref(f) && arg1 == opts
